@@ -38,6 +38,7 @@ const (
 	kClosure
 	kStrEmpty
 	kStrNonEmpty
+	kStruct // a struct value (copied on load/store); obj holds its fields
 )
 
 type loc struct {
@@ -497,6 +498,13 @@ func (it *flagInterp) effect(fr *frame, st *astate, in ssa.Instruction) {
 				// *p = T{} : reset
 				addr.obj.fields = map[string]aval{}
 				addr.obj.zero = true
+			} else if val.k == kStruct && val.obj != nil {
+				// *p = structValue : copy the fields
+				addr.obj.fields = map[string]aval{}
+				for k, v := range val.obj.fields {
+					addr.obj.fields[k] = v
+				}
+				addr.obj.zero = val.obj.zero
 			} else {
 				addr.obj.fields["$"] = val
 			}
@@ -555,6 +563,14 @@ func (it *flagInterp) instr(fr *frame, st *astate, in ssa.Instruction) aval {
 				t := fieldTypeOfObj(x)
 				return it.load(a.obj, a.field, t)
 			case kPtr:
+				if _, isStruct := x.Type().Underlying().(*types.Struct); isStruct && !isFuncsValue(x.Type()) {
+					// a struct value: a private copy of the object's fields
+					snap := it.newObj(st, a.obj.name+"(value)", a.obj.zero)
+					for k, v := range a.obj.fields {
+						snap.fields[k] = v
+					}
+					return aval{k: kStruct, obj: snap}
+				}
 				return it.load(a.obj, "$", x.Type())
 			case kNil, kMaybeNil:
 				it.violate(in, "load through a nil pointer", st)
@@ -627,6 +643,14 @@ func (it *flagInterp) instr(fr *frame, st *astate, in ssa.Instruction) aval {
 	case *ssa.MakeMap, *ssa.MakeChan, *ssa.MakeSlice:
 		return aval{k: kNonNil}
 	case *ssa.Field:
+		base := it.eval(fr, st, x.X)
+		if base.k == kStruct && base.obj != nil {
+			if st2, ok := x.X.Type().Underlying().(*types.Struct); ok && x.Field < st2.NumFields() {
+				v := it.load(base.obj, st2.Field(x.Field).Name(), x.Type())
+				v.src = nil
+				return v
+			}
+		}
 		return aval{k: kUnknown}
 	}
 	return aval{k: kUnknown}
